@@ -162,4 +162,8 @@ ResultOK == ended => LET d == D!Den(cfg.g, 0, DenCtx, Fuel) IN
                      CASE d.k = "T" -> done = 1 /\ cur = d.e [] d.k = "F" -> done = 0 [] d.k = "X" -> done = 2 [] OTHER -> TRUE
 \* no run gets stuck half way
 Progress == (q = <<>> /\ done = -1) => ENABLED M!MStep
+\* every run of a grammar the denotation does not classify as looping ends: parse() returns or throws, and the
+\* observer has consumed every event (liveness; checked under weak fairness of the composed step)
+FairSpec == Spec /\ WF_vars(Next)
+Termination == <>(ended /\ q = <<>>)
 =============================================================================
